@@ -27,6 +27,12 @@ add('C17', 'proof',
     "symbolic execution of the real functions (operator overloading, module-global np rebound) + z3 QF_FP/QF_BV/QF_NRA queries",
     'DESIGN.md 3/C17')
 
+add('C11', 'model_checking',
+    "One inductive step from an ARBITRARY valid RecipeManager state (symbolic regex/op/algorithm/config tokens inside the real OrderedDict) through the real add_quantization_config, load_quantization_recipe and get_quantization_configs, explored path-exhaustively by the symbolic executor; on every path z3 decides that the resulting state, the raise/no-raise outcome, the resolved (algorithm, config), purity and repeatability equal a reference written from the property text, and that the representation invariant is preserved. Covers histories of any length over states within the bound; scripted sequences in the unit tests cover a dozen.",
+    "Assumes: re.search and the support check are uninterpreted predicates (deterministic functions of their arguments - validated concretely against the real check for every (algorithm, op) and 5 configs); token alphabets of 4 ops/3 configs/3 algorithms (symmetry reduction); bounds R<=2 scopes x K<=2 rules (quick), total rules<=5 with R<=3,K<=3 (thorough); the representation invariant is checked, not assumed, to be inductive.",
+    "path-exhaustive symbolic execution of the real RecipeManager on symbolic tokens; z3 (QF_UFLIA) decides state/result equality with a reference model per path",
+    'DESIGN.md 3/C11')
+
 def write():
   m = {
    'version': 1,
